@@ -8,11 +8,14 @@
 //!
 //! * `Mutex`  = `shuttle::sync::Mutex` (wraps a real `std::sync::Mutex`, so lock
 //!   poisoning is the real std behaviour),
+//! * `RwLock` = a writer-preferring reader-writer lock built on the simulator's mutex and condition
+//!   variable (like std's futex implementation on Linux, a reader waits while a writer is queued, so
+//!   a nested read behind a waiting writer deadlocks here exactly as it does for real),
 //! * `OnceCell<T>` with the part of the `once_cell::sync::OnceCell` surface the
 //!   engine uses, whose value lives in the simulator's per-execution storage:
 //!   every simulated execution starts with every static cell empty, i.e. it is a
 //!   fresh process.
-pub use shuttle::sync::{Mutex, RwLock};
+pub use shuttle::sync::Mutex;
 
 use shuttle::sync::Once;
 use shuttle_engine::runtime::execution::ExecutionState;
@@ -110,5 +113,123 @@ impl<T: Send + Sync + 'static> OnceCell<T> {
                 });
             }
         }
+    }
+}
+
+// ---------------------------------------------------------------------------------------------
+// Writer-preferring RwLock (the engine does not use one today; present so that a refactor that
+// introduces one stays inside the seam and keeps std's blocking behaviour).
+
+use std::cell::UnsafeCell;
+use std::ops::{Deref, DerefMut};
+use std::sync::{LockResult, PoisonError};
+
+struct RwState {
+    readers: usize,
+    writer: bool,
+    writers_waiting: usize,
+    poisoned: bool,
+}
+
+pub struct RwLock<T> {
+    state: shuttle::sync::Mutex<RwState>,
+    cond: shuttle::sync::Condvar,
+    data: UnsafeCell<T>,
+}
+
+unsafe impl<T: Send> Send for RwLock<T> {}
+unsafe impl<T: Send + Sync> Sync for RwLock<T> {}
+
+pub struct RwLockReadGuard<'a, T> {
+    lock: &'a RwLock<T>,
+}
+
+pub struct RwLockWriteGuard<'a, T> {
+    lock: &'a RwLock<T>,
+}
+
+impl<T> RwLock<T> {
+    pub const fn new(value: T) -> Self {
+        RwLock {
+            state: shuttle::sync::Mutex::new(RwState { readers: 0, writer: false, writers_waiting: 0, poisoned: false }),
+            cond: shuttle::sync::Condvar::new(),
+            data: UnsafeCell::new(value),
+        }
+    }
+
+    pub fn read(&self) -> LockResult<RwLockReadGuard<'_, T>> {
+        let mut st = self.state.lock().unwrap();
+        // writer preference: a queued writer holds new readers back
+        while st.writer || st.writers_waiting > 0 {
+            st = self.cond.wait(st).unwrap();
+        }
+        st.readers += 1;
+        let poisoned = st.poisoned;
+        drop(st);
+        let g = RwLockReadGuard { lock: self };
+        if poisoned {
+            Err(PoisonError::new(g))
+        } else {
+            Ok(g)
+        }
+    }
+
+    pub fn write(&self) -> LockResult<RwLockWriteGuard<'_, T>> {
+        let mut st = self.state.lock().unwrap();
+        st.writers_waiting += 1;
+        while st.writer || st.readers > 0 {
+            st = self.cond.wait(st).unwrap();
+        }
+        st.writers_waiting -= 1;
+        st.writer = true;
+        let poisoned = st.poisoned;
+        drop(st);
+        let g = RwLockWriteGuard { lock: self };
+        if poisoned {
+            Err(PoisonError::new(g))
+        } else {
+            Ok(g)
+        }
+    }
+}
+
+impl<T> Drop for RwLockReadGuard<'_, T> {
+    fn drop(&mut self) {
+        let mut st = self.lock.state.lock().unwrap();
+        st.readers -= 1;
+        drop(st);
+        self.lock.cond.notify_all();
+    }
+}
+
+impl<T> Drop for RwLockWriteGuard<'_, T> {
+    fn drop(&mut self) {
+        let mut st = self.lock.state.lock().unwrap();
+        st.writer = false;
+        if std::thread::panicking() {
+            st.poisoned = true;
+        }
+        drop(st);
+        self.lock.cond.notify_all();
+    }
+}
+
+impl<T> Deref for RwLockReadGuard<'_, T> {
+    type Target = T;
+    fn deref(&self) -> &T {
+        unsafe { &*self.lock.data.get() }
+    }
+}
+
+impl<T> Deref for RwLockWriteGuard<'_, T> {
+    type Target = T;
+    fn deref(&self) -> &T {
+        unsafe { &*self.lock.data.get() }
+    }
+}
+
+impl<T> DerefMut for RwLockWriteGuard<'_, T> {
+    fn deref_mut(&mut self) -> &mut T {
+        unsafe { &mut *self.lock.data.get() }
     }
 }
